@@ -115,8 +115,14 @@ def preflight():
 class Opaque:
     """stands in for the pyproj CRS object: only equality is observable (class id)"""
 
-    def __init__(self, cls, e70=None):
-        self.cls, self.e70 = cls, e70
+    def __init__(self, cls, e70=None, geographic=None):
+        self.cls, self.e70, self._geographic = cls, e70, geographic
+
+    @property
+    def is_geographic(self):
+        if self._geographic is None:
+            raise symx.Unsupported("is_geographic on a tag without that attribute")
+        return bool(self._geographic)  # forks
 
     def to_epsg(self, *a, **kw):
         """what the projection library's code lookup answers (None: no code)"""
@@ -192,7 +198,7 @@ class Tag:
             from odc.geo.crs import CRS
 
             c = CRS.__new__(CRS)
-            c._crs = Opaque(self.cls, self.e70)
+            c._crs = Opaque(self.cls, self.e70, Bool(f"{name}_geographic"))
             c._epsg = self.epsg
             c._str = SymStr(self.sid)
             self.crs = c
